@@ -72,7 +72,7 @@ class Oracle:
             if not base.endswith("Request"):
                 base += "Request"
             self.by_class[base] = ("request", r)
-            self.by_class[base.replace("Request", "") + "Response"] = ("response", r)
+            self.by_class[base[: -len("Request")] + "Response"] = ("response", r)
         for n in mm.notifications:
             base = n.get("typeName") or method_to_class_name(n["method"])
             if not base.endswith("Notification"):
